@@ -1255,6 +1255,35 @@ def edge_schemas() -> List[Tuple[str, Schema]]:
              services=[Service("AliasSvc", [Method("Watch", TypeRef("message", "", "alpha.beta", ("Point",)), TypeRef("message", "", "alpha_beta", ("Tree",)), True, True),
                                             Method("Get", TypeRef("message", "", "alpha_beta", ("Tree",)), TypeRef("message", "", "alpha.beta", ("Point",)))])]),
     ], features={"edge.alias-collision-packages": 1})))
+    # user messages / enums in an ordinary package that carry the NAMES of well-known types, used next to the real ones
+    wn = "edge.wktnames"
+    U = lambda *path: TypeRef("message", "", wn, tuple(path))
+    S("wkt-named-user-types", wn, imports=[WKT_FILE["StringValue"], WKT_FILE["Timestamp"], WKT_FILE["Duration"], WKT_FILE["Empty"]], msgs=[
+        Message("StringValue", [Field("text", 1, scalar("string")), Field("lang", 2, scalar("string"))]),
+        Message("Int64Value", [Field("units", 1, scalar("int64")), Field("unit_name", 2, scalar("string"))]),
+        Message("BoolValue", [Field("flag", 1, scalar("bool")), Field("why", 2, scalar("string"))]),
+        Message("Timestamp", [Field("label", 1, scalar("string")), Field("ticks", 2, scalar("int64"))]),
+        Message("Duration", [Field("label", 1, scalar("string")), Field("beats", 2, scalar("int32"))]),
+        Message("Empty", [Field("not_really", 1, scalar("int32"))]),
+        Message("Article", [Field("title", 1, U("StringValue")), Field("aliases", 2, U("StringValue"), "repeated"),
+                            Field("price", 3, U("Int64Value"), "optional"), Field("by_lang", 4, U("StringValue"), "map", map_key="string"),
+                            Field("text", 5, U("StringValue"), oneof="body"), Field("teaser", 6, U("BoolValue"), oneof="body"),
+                            Field("when", 7, U("Timestamp")), Field("lasts", 8, U("Duration")), Field("nothing", 9, U("Empty")),
+                            Field("real_title", 10, wkt("StringValue")), Field("real_when", 11, wkt("Timestamp")),
+                            Field("real_lasts", 12, wkt("Duration")), Field("real_nothing", 13, wkt("Empty"))]),
+    ], services=[Service("Press", [Method("Publish", U("Article"), U("Timestamp")), Method("Stamp", wkt("Timestamp"), U("StringValue"), True, True)])])
+    # one package per field kind, each with ONE message that has ONE field: whatever a module needs (datetime / timedelta /
+    # typing / bundled-package imports) must come from that field alone
+    lonely = [("dur", wkt("Duration"), "singular", None), ("ts", wkt("Timestamp"), "singular", None), ("rdur", wkt("Duration"), "repeated", None),
+              ("mts", wkt("Timestamp"), "map", "string"), ("ots", wkt("Timestamp"), "optional", None), ("wrap", wkt("Int32Value"), "singular", None),
+              ("rwrap", wkt("StringValue"), "repeated", None), ("emp", wkt("Empty"), "singular", None), ("opt", scalar("int32"), "optional", None),
+              ("rep", scalar("string"), "repeated", None), ("map", scalar("bytes"), "map", "int32"), ("one", scalar("bool"), "singular", None)]
+    files = []
+    for i, (nm, t, lab, mk) in enumerate(lonely):
+        fld = Field("only", 1, t, lab, map_key=mk, oneof="pick" if nm == "one" else None)
+        files.append(File(name="lonely_%s.proto" % nm, package="edge.lonely.%s" % nm, imports=[WKT_FILE[t.name]] if t.kind == "wkt" else [],
+                          messages=[Message("M", [fld])]))
+    out.append(("lonely-fields", Schema(files=files, features={"edge.lonely-fields": 1})))
     # field names that differ only in case / underscores but are accepted by protoc
     S("field-recase-collision", "edge.fieldrecase", msgs=[
         Message("M", [Field("HTTPCode", 1, scalar("int32")), Field("http_code", 2, scalar("int32"))]),
@@ -1413,7 +1442,14 @@ def ref_schema(packages: List[str], edges: List[Tuple[str, str]], style: str = "
                 refs.append({"key": "%s|<wkt>|%s|%s" % (s, wname, site), "src": s, "dst": "<wkt>", "kind": "wkt", "site": site,
                              "src_module": module_of(s), "holder": "HolderW", "number": num, "wkt": True,
                              "dst_module": "betterproto.lib.google.protobuf", "dst_flat": wname, "dst_kind": "message"})
-            for wname, site in (("Empty", "rpc_in"), ("Int32Value", "rpc_out"), ("Timestamp", "rpc_in")):
+            # the same well-known types as FIELDS of the package (there they are unwrapped to datetime / timedelta /
+            # Optional[scalar], so no class reference to check): the RPCs below must still resolve to the bundled classes
+            for wname in ("Timestamp", "Duration", "Int32Value", "StringValue"):
+                num += 1
+                if WKT_FILE[wname] not in imports:
+                    imports.append(WKT_FILE[wname])
+                holder.fields.append(Field("u_%s" % wname.lower(), num, wkt(wname), "repeated" if wname == "Duration" else "singular"))
+            for wname, site in (("Empty", "rpc_in"), ("Int32Value", "rpc_out"), ("Timestamp", "rpc_in"), ("Duration", "rpc_out"), ("StringValue", "rpc_in")):
                 if WKT_FILE[wname] not in imports:
                     imports.append(WKT_FILE[wname])
                 mname = "W%s%s" % (wname, "In" if site == "rpc_in" else "Out")
